@@ -52,6 +52,22 @@ ByteCases(zzdummy) ==
         mk(<<OptAst, OptE(FALSE), EFB>>, <<[name |-> EFB, content |-> e]>>, <<>>, "file", "stdin", FALSE, TRUE, FALSE),
         mk(<<OptU(FALSE), <<255>>>>, <<>>, i, "arg", "stdin", TRUE, FALSE, TRUE) >>
 
+(* a file whose name is "-" is a file like any other: missing, it is a failure (standard input is not a substitute); present, it is read *)
+DASH == <<45>>
+DashCases(zzdummy) ==
+  LET e == P.exprs[2]  i == P.inputs[1]  i2 == P.inputs[3]  e2 == P.exprs[1]
+      mk(argv, files, stdin, expr, input, exprsrc, inputsrc, unq) ==
+        [e |-> "cli", argv |-> argv, files |-> files, stdin |-> stdin, expr |-> expr, input |-> input, exprsrc |-> exprsrc, inputsrc |-> inputsrc,
+         unquoted |-> unq, ast |-> FALSE, pad |-> 0]
+  IN << mk(<<OptF(FALSE), DASH, e>>, <<>>, i, e, i, "arg", "missingfile", FALSE),
+        mk(<<OptF(TRUE), DASH, e>>, <<>>, i, e, i, "arg", "missingfile", FALSE),
+        mk(<<OptF(FALSE), DASH, e>>, <<[name |-> DASH, content |-> i2]>>, i, e, i2, "arg", "file", FALSE),
+        mk(<<OptU(FALSE), OptF(FALSE), DASH, e>>, <<[name |-> DASH, content |-> i2]>>, i, e, i2, "arg", "file", TRUE),
+        mk(<<OptF(FALSE), DASH, e>>, <<[name |-> DASH, content |-> <<123>>]>>, i, e, <<123>>, "arg", "file", FALSE),
+        mk(<<OptE(FALSE), DASH>>, <<>>, i, e, i, "missingfile", "stdin", FALSE),
+        mk(<<OptE(FALSE), DASH>>, <<[name |-> DASH, content |-> e2]>>, i, e2, i, "file", "stdin", FALSE),
+        mk(<<OptE(TRUE), DASH, OptF(FALSE), DASH>>, <<[name |-> DASH, content |-> e2]>>, <<>>, e2, e2, "file", "file", FALSE) >>
+
 Full == IOEnv.FULL = "1"
 Cases(zzdummy) ==
   LET main == {<<ei, ii, "arg", "stdin", u, FALSE, FALSE>> : ei \in 1..P.nexprs, ii \in 1..P.ninputs, u \in BOOLEAN}
@@ -73,7 +89,7 @@ Cases(zzdummy) ==
       deep == SetToSeq({<<ei, ii, "arg", is, u, FALSE>> : ei \in Ix(P.deepexprs), ii \in Ix(P.deepinputs), is \in {"stdin", "file"}, u \in BOOLEAN})
       dev == SetToSeq({<<ei, ii, es, u>> : ei \in {1, 2, 9, 10, 18, 22, 35}, ii \in {1, 2, 7, 12, 13, 4}, es \in {"arg", "file"}, u \in BOOLEAN})
   IN [x \in DOMAIN all |-> Case(all[x][1], all[x][2], all[x][3], all[x][4], all[x][5], all[x][6], all[x][7])]
-     \o ByteCases(0)
+     \o ByteCases(0) \o DashCases(0)
      \o [x \in DOMAIN tail |-> Case(tail[x][1], tail[x][2], tail[x][3], tail[x][4], tail[x][5], tail[x][6], FALSE)]
      \o [x \in DOMAIN deep |-> Case(deep[x][1], deep[x][2], deep[x][3], deep[x][4], deep[x][5], deep[x][6], FALSE)]
      \o [x \in DOMAIN crlf |-> Case(crlf[x][1], crlf[x][2], crlf[x][3], "stdin", crlf[x][4], FALSE, FALSE)]
